@@ -134,7 +134,7 @@ def mutate(text, rng):
     return text[:a] + text[b] + text[a + 1:b] + text[a] + text[b + 1:] if a < b else text
 
 
-def run_pmon(paths, inputs, ext_conv):
+def run_pmon(paths, inputs, ext_conv, env=None):
     """monitor binary on inputs x [(ext, conv)]; returns list of (input, ext, conv, violations list)"""
     bindir = common.build_harness(["pmon"])
     cases = []
@@ -144,7 +144,7 @@ def run_pmon(paths, inputs, ext_conv):
         for e, c in ext_conv:
             cases.append("%s %d %s" % (h, e, c))
             meta.append((s, e, c))
-    out = common.run_lines(os.path.join(bindir, "pmon"), cases, tag="pmon")
+    out = common.run_lines(os.path.join(bindir, "pmon"), cases, env=env, tag="pmon")
     res = []
     for (s, e, c), l in zip(meta, out):
         v = [] if l == "V -" else l[2:].split(",")
